@@ -13,7 +13,8 @@ use celestia_proto::celestia::core::v1::da::DataAvailabilityHeader as RawDah;
 use celestia_proto::celestia::core::v1::proof::{NmtProof as RawNmtProof, RowProof as RawRowProof, ShareProof as RawShareProof};
 use celestia_proto::proof::pb::Proof as RawProof;
 use celestia_proto::share::eds::byzantine::pb::{BadEncoding as RawBefp, Share as RawBefpShare};
-use celestia_types::fraud_proof::BadEncodingFraudProof;
+use base64::prelude::*;
+use celestia_types::fraud_proof::{BadEncodingFraudProof, Proof as FraudProofEnum};
 use celestia_types::nmt::{NS_SIZE, Namespace, NamespaceProof};
 use celestia_types::{AxisType, Blob, DataAvailabilityHeader, ExtendedHeader, MerkleProof, RawShare, RowProof, Share, ShareProof};
 use d_common::*;
@@ -401,6 +402,23 @@ impl C46 {
             out.op(set(&l, "height", &u64::MAX.to_string()), "befp/height-u64-max", true);
             out.op(set(&l, "index", "65536"), "befp/index-65536", true);
             out.op(set(&l, "axis", "2"), "befp/bad-axis", true);
+            // the JSON form of fraud proofs, raw level: { proof_type, data = base64(protobuf) }
+            let fl = l.replacen("befp ", "fraudjson type=badencoding ", 1);
+            out.op(fl.clone(), "fraudjson/honest", true);
+            for t in ["BadEncoding", "badencodingx", "-", "bad"] {
+                out.op(set(&fl, "type", t), "fraudjson/unknown-type", true);
+            }
+            out.op(set(&fl, "index", "65536"), "fraudjson/bad-payload", true);
+            // a second, all-shares-present proof and one with only the parity half present
+            let mut full = raw.clone();
+            full.shares = raw.shares.iter().map(|s| if s.proof.is_some() { s.clone() } else { raw.shares.iter().find(|x| x.proof.is_some()).cloned().unwrap_or_default() }).collect();
+            out.op(format!("befp {}", befp_fields(&full)), "befp/honest-all-present", true);
+            let mut half = full.clone();
+            for s in half.shares.iter_mut().take(w / 2) {
+                *s = RawBefpShare::default();
+            }
+            half.header_hash = vec![];
+            out.op(format!("befp {}", befp_fields(&half)), "befp/honest-parity-half-no-hash", true);
         }
     }
 
@@ -497,7 +515,7 @@ impl C46 {
             }
         }
         // extended headers (correspondence only): deterministic honest headers
-        for _ in 0..n.div_ceil(4) {
+        for _ in 0..n {
             use consensus_e::*;
             let nparties = rng.usize(1, 4);
             let parties: Vec<Party> = (0..nparties)
@@ -561,7 +579,7 @@ impl Prop for C46 {
         "Valid values of every type named in the property, built from random namespace-sorted squares extended with the real \
          leopard codec: DAHs, data and parity shares, namespaces (user + reserved), namespace proofs from the real trees \
          (presence ranges, absence with and without leaf, both ignore_max_ns settings, u32 extremes) through both raw proof forms, \
-         merkle / row / share proofs, bad-encoding fraud proofs (all axis combinations, absent shares), block ranges, blobs \
+         merkle / row / share proofs, bad-encoding fraud proofs (all axis combinations, absent shares; protobuf AND the JSON form fraud_proof::Proof <-> RawFraudProof incl. unknown type tags), block ranges, blobs \
          (v0 and signer v1, lengths around the share boundaries, with and without a chain index; raw BlobProto and JSON field forms \
          incl. wrapped namespace versions, out-of-range / inconsistent share versions, signers of wrong length, foreign commitments), \
          honest signed extended headers and their raw forms with every subset of the four messages missing, messages the third-party \
@@ -572,7 +590,7 @@ impl Prop for C46 {
     }
     fn gen_ops(&mut self, rng: &mut Rng, tier: Tier, out: &mut Emitter) {
         let plan: Vec<(usize, usize, usize)> =
-            if tier == Tier::Thorough { vec![(2, 6, 10), (4, 6, 12), (8, 5, 14), (16, 3, 14), (32, 2, 10)] } else { vec![(2, 2, 5), (4, 2, 6), (8, 2, 6), (16, 1, 6)] };
+            if tier == Tier::Thorough { vec![(2, 6, 10), (4, 6, 12), (8, 5, 14), (16, 3, 14), (32, 2, 10)] } else { vec![(2, 3, 6), (4, 3, 8), (8, 3, 8), (16, 2, 8)] };
         for (w, squares, per) in plan {
             for _ in 0..squares {
                 self.gen_square(rng, w, per, out);
@@ -689,7 +707,41 @@ impl Prop for C46 {
                     Err(_) => "err-decode".into(),
                     Ok(p) => {
                         let back = RawBefp::from(p.clone());
-                        format!("ok raw={} pb={} json=-", befp_fields(&back).replace(' ', ";"), pb_rt::<RawBefp, _>(&p))
+                        // the JSON form of fraud proofs: fraud_proof::Proof <-> RawFraudProof { proof_type, data }
+                        let fp = FraudProofEnum::BadEncoding(p.clone());
+                        let (jtype, jdata) = match serde_json::to_value(&fp) {
+                            Ok(v) => {
+                                let t = v.get("proof_type").and_then(|t| t.as_str()).unwrap_or("?").to_string();
+                                let d = v.get("data").and_then(|d| d.as_str()).and_then(|d| BASE64_STANDARD.decode(d).ok());
+                                (if t.is_empty() { "-".to_string() } else { t.replace(' ', "_") }, flag(d.map(|d| d == p.clone().encode_vec())))
+                            }
+                            Err(_) => ("?".to_string(), "err"),
+                        };
+                        format!(
+                            "ok raw={} pb={} json={} jtype={jtype} jdata={jdata}",
+                            befp_fields(&back).replace(' ', ";"),
+                            pb_rt::<RawBefp, _>(&p),
+                            json_rt(&fp)
+                        )
+                    }
+                }
+            }
+            "fraudjson" => {
+                let (Some(ty), Some(hash), Some(height), Some(index), Some(axis)) =
+                    (arg(line, "type"), arg_hex(line, "hash"), arg_u64(line, "height"), arg_u64(line, "index"), arg_u64(line, "axis"))
+                else {
+                    return "bad-op".into();
+                };
+                let Some(shares) = all_args(line, "sh").into_iter().map(befp_unword).collect::<Option<Vec<_>>>() else { return "bad-op".into() };
+                let raw = RawBefp { header_hash: hash, height, shares, index: index as u32, axis: axis as u32 as i32 };
+                let ty = if ty == "-" { "" } else { ty };
+                let text = serde_json::json!({ "proof_type": ty, "data": BASE64_STANDARD.encode(raw.encode_to_vec()) }).to_string();
+                match serde_json::from_str::<FraudProofEnum>(&text) {
+                    Err(_) => "err-decode".into(),
+                    Ok(fp) => {
+                        let FraudProofEnum::BadEncoding(p) = &fp else { return "other-variant".into() };
+                        let back = RawBefp::from(p.clone());
+                        format!("ok raw={} json={}", befp_fields(&back).replace(' ', ";"), json_rt(&fp))
                     }
                 }
             }
